@@ -118,6 +118,10 @@ impl<T> Vec<T> {
 
     /// Returns a reference to the element at the given index.
     pub fn get(&self, index: u32) -> Option<Item<'_, T>> {
+        // indices above `MAX_ENTRIES` are never handed out (and `Location::of` can not represent them)
+        if index > MAX_ENTRIES {
+            return None;
+        }
         let location = Location::of(index);
 
         unsafe {
